@@ -741,7 +741,32 @@ func (fc *flushCtx) isFlush(x ssa.Instruction, buf ssa.Value, depth int) bool {
 			return bad == nil
 		}
 	}
+	// a helper that is handed the bytes of the buffer and writes them to State.Out on every path
+	for i, a := range call.Common().Args {
+		if i < len(callee.Params) && fc.fromBytes(a, buf, depth, map[ssa.Value]bool{}) && fc.c.writesParamToOut(callee, i) {
+			return true
+		}
+	}
 	return false
+}
+
+// writesParamToOut: every path from the entry of callee to a return passes a Write of parameter pi on a writer
+// loaded from State.Out.
+func (c *Ctx) writesParamToOut(callee *ssa.Function, pi int) bool {
+	if callee == nil || callee.Blocks == nil || pi >= len(callee.Params) {
+		return false
+	}
+	stateT := c.TypeNamed("eval", "State")
+	p := callee.Params[pi]
+	sat := func(in ssa.Instruction) bool {
+		call, ok := in.(*ssa.Call)
+		if !ok || !call.Common().IsInvoke() || call.Common().Method.Name() != "Write" || len(call.Common().Args) != 1 || call.Common().Args[0] != ssa.Value(p) {
+			return false
+		}
+		ld, ok := call.Common().Value.(*ssa.UnOp)
+		return ok && isFieldAddrOf(ld.X, stateT, "Out")
+	}
+	return mustPassFromEntry(callee, sat, isReturn) == nil
 }
 
 // allPathsFlush: from instruction index `from` of block b, every path to a return restores State.Out (when
